@@ -1,9 +1,15 @@
 //! gvh: verification harness. Calls the real GlareDB code in-process and
 //! prints canonical lines that the driver compares with the Lean model.
+#[cfg(feature = "internals")]
 mod castfmt;
+#[cfg(feature = "internals")]
+mod collection;
+#[cfg(feature = "internals")]
 mod csvdec;
+#[cfg(feature = "internals")]
 mod rledec;
 mod rng;
+#[cfg(feature = "internals")]
 mod sortkey;
 mod sqlrun;
 
@@ -16,10 +22,16 @@ fn main() {
     let rest = &args[2..];
     let rc = match args[1].as_str() {
         "sql" => sqlrun::main(rest),
+        #[cfg(feature = "internals")]
         "sortkey" => sortkey::main(rest),
+        #[cfg(feature = "internals")]
         "cast" => castfmt::main(rest),
+        #[cfg(feature = "internals")]
         "csv" => csvdec::main(rest),
+        #[cfg(feature = "internals")]
         "rle" => rledec::main(rest),
+        #[cfg(feature = "internals")]
+        "collection" => collection::main(rest),
         other => {
             eprintln!("unknown component {other}");
             2
